@@ -15,7 +15,7 @@ RULE = ("batches of 1..12 designs evaluated with 2..6 worker threads under a con
         "sync_individual entry/exit and before/after every SQL execute/commit, grant order chosen by seeded policies (uniform, "
         "round-robin, LIFO, starve-one, PCT-style priorities), SQLite busy timeout shortened to 50 ms so that lock contention and "
         "the OperationalError retry path occur; plus runs under sys.monitoring LINE-event yield injection inside artap code and "
-        "short NSGA-II runs with max_processes>1. Oracle: serial evaluation of the same vectors on a fresh problem; one objective "
+        "short NSGA-II / eps-MOEA / OMOPSO / SMPSO / PSOGA runs with max_processes>1 compared with the serial run of the same seed. Oracle: serial evaluation of the same vectors on a fresh problem; one objective "
         "call per design; one row per design equal to the final object. non-trivial = schedule in which >=2 designs were inside the "
         "objective/store at the same time; distinct = distinct grant-order signature")
 ASSUMPTIONS = ["interleavings are explored at gate and statement granularity; nothing inside one statement or inside C code holding "
@@ -32,7 +32,8 @@ def cases(ctx):
     for i in range(ctx.pick(24, 3300)):
         yield "lines", {"seed": ctx.subseed("l", i), "store": ["dummy", "sqlite"][i % 2]}
     for i in range(ctx.pick(12, 960)):
-        yield "nsga2", {"seed": ctx.subseed("n", i), "policy": pol[i % len(pol)]}
+        yield "nsga2", {"seed": ctx.subseed("n", i), "policy": pol[i % len(pol)],
+                        "algo": ["nsga2", "epsmoea", "nsga2", "omopso", "smpso", "psoga"][i % 6]}
 
 
 def make_fn(r, n, m):
@@ -238,7 +239,7 @@ def run_case(ctx, name, params):
                 except OSError:
                     pass
     else:
-        setup = insitu.random_setup(r, algo="nsga2", max_n=3, max_m=2, max_N=8, max_G=4, families=["unit", "mixed"])
+        setup = insitu.random_setup(r, algo=params.get("algo", "nsga2"), max_n=3, max_m=2, max_N=8, max_G=4, families=["unit", "mixed"])
         workers = r.randint(2, 4)
         ps, as_, es = insitu.run_one(setup)
         S = sched.Scheduler(params["seed"], params["policy"], expected=min(workers, setup["N"]))
@@ -268,16 +269,16 @@ def run_case(ctx, name, params):
         b = [(i.population_id, list(i.vector), list(i.costs), norm(i.costs_signed)) for i in pp.individuals]
         if a != b:
             k = next((j for j in range(min(len(a), len(b))) if a[j] != b[j]), None)
-            ctx.violation("nsga2/parallel_run_differs", "an NSGA-II run with %d workers records different designs/costs than the serial "
-                          "run with the same seed" % workers, wit({"first_difference": k, "serial": a[k] if k is not None else len(a),
+            ctx.violation("nsga2/parallel_run_differs", "a %s run with %d workers records different designs/costs than the serial "
+                          "run with the same seed" % (setup["algo"], workers), wit({"first_difference": k, "serial": a[k] if k is not None else len(a),
                                                                     "parallel": b[k] if k is not None else len(b)}))
             return
         if len(pp.ok_calls()) != len(ps.ok_calls()):
             ctx.violation("nsga2/call_count_differs", "parallel run made %d objective calls, serial %d" % (len(pp.calls), len(ps.calls)), wit())
             return
         ctx.count("cases")
-        ctx.sample({"mode": "nsga2", "N": setup["N"], "G": setup["G"], "workers": workers, "policy": params["policy"],
-                    "max_overlap": S.max_overlap}, "nsga2", 1)
+        ctx.sample({"mode": "run_pair_" + setup["algo"], "N": setup["N"], "G": setup["G"], "workers": workers, "policy": params["policy"],
+                    "max_overlap": S.max_overlap}, "run_" + setup["algo"], 1)
 
 
 def requirements(ctx):
